@@ -20,7 +20,7 @@ ever evaluated).
 from .framework import body_loc
 from .interp import shape, tree_leaf, PathLimit, Unsupported
 from .tables import mk_interp, ref
-from .mir import callee_path, short
+from .mir import callee_path, callee_id, short
 
 FLOW = ("OBJ", "flow")
 
@@ -67,11 +67,12 @@ def rule_constants(ctx):
     hexdigits = len("%x" % size)
     ctx.check(over >= hexdigits + 4, R, "overhead", "DEFAULT_CHUNK_OVERHEAD (%d) >= hex digits of the chunk size (%d) + 4 bytes of CRLFs" % (over, hexdigits))
     # the chunk writer's max_chunk argument
+    from .tables import find_chunk_writer
+    _wc = find_chunk_writer(prog)
     vals = []
     for b in prog.nonderived_bodies():
         for bb, t in b.calls():
-            p = short(callee_path(t) or "")
-            if p.endswith("write_chunk"):
+            if _wc is not None and callee_id(t) == _wc.id:
                 a = t["args"][-1]
                 vals.append(int(a["int"]) if "int" in a else None)
     ctx.check(vals and all(v == size for v in vals), R, "writer-chunk-size", "the chunk writer is called with a maximum chunk of %d = the size the formula assumes" % size,
@@ -90,7 +91,9 @@ def rule_constants(ctx):
             elif isinstance(o, list):
                 for v in o:
                     walk(v)
-        walk(f.raw["body"])
+        from .panics import reachable_from
+        for b_ in [f] + [x for x in reachable_from(prog, [f]) if not x.is_derived and x is not f]:   # helpers of the formula included
+            walk(b_.raw["body"])
         ctx.check({size, over, both} <= ints, R, "formula-constants", "the closed-form bound is written in terms of the same three constants", loc=body_loc(f),
                   detail=sorted(ints))
 
@@ -290,15 +293,16 @@ def rule_writer_schema(ctx):
     R = "R18.4"
     prog = ctx.prog
     from .emit import emission_hook
-    wc = prog.find("write_chunk")
-    if not ctx.require(wc, R, "entry", "write_chunk"):
+    from .tables import find_chunk_writer
+    wc = find_chunk_writer(prog)
+    if not ctx.require(wc, R, "entry", "chunk writer (the helper of BodyWriter::write that emits one chunk)"):
         return
     over = prog.const_int("DEFAULT_CHUNK_OVERHEAD")
     # M: the maximum chunk the writer is called with
     Ms = []
     for b in prog.nonderived_bodies():
         for bb, t in b.calls():
-            if short(callee_path(t) or "").endswith("write_chunk"):
+            if callee_id(t) == wc.id:
                 a = t["args"][-1]
                 Ms.append(int(a["int"]) if "int" in a else None)
     if not ctx.require(Ms and all(m is not None and m == Ms[0] for m in Ms), R, "max-chunk", "constant maximum chunk at the call sites of write_chunk"):
@@ -473,7 +477,7 @@ def rule_writer_schema(ctx):
     bw = prog.find("BodyWriter::write")
     if ctx.require(bw, R, "loop-entry", "BodyWriter::write"):
         succ = bw.succ_map()
-        callbb = [bb for bb, t in bw.calls() if short(callee_path(t) or "").endswith("write_chunk")]
+        callbb = [bb for bb, t in bw.calls() if callee_id(t) == wc.id]
         okloop = False
         detail = []
         if len(callbb) == 1:
